@@ -39,6 +39,11 @@ std::vector<uint32_t> tileWords(const Map& m) {
   std::memcpy(out.data(), all.data() + 20, out.size() * 4);
   return out;
 }
+std::vector<std::string> splitOn(const std::string& s, char c) {
+  std::vector<std::string> out; std::string cur;
+  for (char ch : s) { if (ch == c) { out.push_back(cur); cur.clear(); } else cur.push_back(ch); }
+  out.push_back(cur); return out;
+}
 struct Hash { uint64_t h = 14695981039346656037ull; void add(uint64_t v) { for (int i = 0; i < 8; ++i) { h ^= (v >> (8 * i)) & 0xFF; h *= 1099511628211ull; } } };
 }
 
@@ -90,6 +95,26 @@ DRV_CMD(tile_acc, "tile.acc") {
   }
   Hash s; for (uint32_t t : tileWords(m)) s.add(t);
   return std::to_string(g.h) + " " + std::to_string(s.h);
+}
+
+// tile.remap <lgw> <h> <x> <y> <ops> : the tile mapping index of every tile is rewritten in place (Map::tiles is public) between
+// queries of one coordinate; ops: k<idx> = set every tile's mapping index, q = query (x,y), p = query (0,0).
+// A query reports  mappingIndex:tilesetIndex:imageIndex  (mapping j is tileset 3j+1, image 5j+2).
+DRV_CMD(tile_remap, "tile.remap") {
+  uint32_t lgw = static_cast<uint32_t>(toU64(need(a,0))), h = static_cast<uint32_t>(toU64(need(a,1)));
+  std::size_t x = static_cast<std::size_t>(toU64(need(a,2))), y = static_cast<std::size_t>(toU64(need(a,3)));
+  std::size_t n = (std::size_t(1) << lgw) * h;
+  Map m = readMap(mapBytes(lgw, h, std::vector<uint32_t>(n, 0), 2048));
+  std::string out;
+  for (const auto& tok : splitOn(need(a,4), ',')) {
+    if (tok.empty()) throw BadOp();
+    if (tok[0] == 'k') { uint32_t k = static_cast<uint32_t>(toU64(tok.substr(1))); if (k > 2047) throw BadOp(); for (auto& t : m.tiles) t.tileMappingIndex = k; continue; }
+    std::size_t qx = tok[0] == 'q' ? x : 0, qy = tok[0] == 'q' ? y : 0;
+    if (tok[0] != 'q' && tok[0] != 'p') throw BadOp();
+    if (!out.empty()) out += ",";
+    out += std::to_string(m.GetTileMappingIndex(qx, qy)) + ":" + std::to_string(m.GetTilesetIndex(qx, qy)) + ":" + std::to_string(m.GetImageIndex(qx, qy));
+  }
+  return out;
 }
 
 // tile.setcell <word> <v:int> : one setter call on a single tile; reports the resulting word (and whether refused)
